@@ -160,6 +160,8 @@ class TablePE(pe.PE):
             return pe.C(0)
         if nm == "lh_table_resize":
             state.trace.append(("call", nm, tuple(args), i))
+            if self.shape.get("resize_fails"):
+                return pe.C(-1)
             return "STOP"
         if nm == "lh_table_new":
             state.trace.append(("call", nm, tuple(args), i))
@@ -284,6 +286,44 @@ def r3_insert(chk, prog, m):
         else:
             chk.proven(rid, f.name, sig, f.entry.term.locstr(), "%d successful path(s) leave slot, count and list consistent" % done)
     chk.floor(rid, len(cases), 8, "insert shape classes")
+    # failure atomicity: when the growth that an insert asks for fails, the insert reports failure having changed nothing
+    SIZE = 8
+    slots = {i: _sent(EMPTY) for i in range(SIZE)}
+    for k in range(6):
+        slots[k] = _live(k)
+    shape = {"t": {TF["size"]: pe.C(SIZE), TF["count"]: pe.C(6), TF["table"]: ("ptr", "tab", ()), TF["head"]: _ptr(0), TF["tail"]: _ptr(5)},
+             "slots": slots, "resize_fails": True}
+    P = TablePE(prog, shape)
+    sig = "insert: growth fails"
+    try:
+        leaves = P.run(f, [("ptr", "t", ()), ("ptr", "newkey", ()), ("ptr", "newval", ()), pe.C(7), pe.C(0)], pe.State())
+    except Exception as e:
+        chk.undecided(rid, f.name, sig, f.entry.term.locstr(), str(e))
+        return
+    bad = None
+    seen_fail = False
+    for lf in leaves:
+        if lf.kind != "ret" or lf.value is None or not pe.is_const(lf.value):
+            continue
+        resized = any(e[0] == "call" and e[1] == "lh_table_resize" for e in lf.state.trace)
+        if not resized:
+            continue
+        if lf.value[1] == 0:
+            bad = bad or "the insert reports success although the growth it asked for failed"
+            continue
+        seen_fail = True
+        for loc, v in lf.state.mem.items():
+            if loc[0] in ("tab", "t"):
+                init = P.init_mem(lf.state, loc[0], loc[1], None)
+                if _norm(v) != _norm(init):
+                    bad = bad or ("the insert returns %d after a failed growth but has already changed %s: the caller is told the add "
+                                  "failed (and keeps ownership of key and value) while the table holds the entry" % (lf.value[1], _locname(loc)))
+    if bad:
+        chk.refuted(rid, f.name, sig, f.entry.term.locstr(), bad)
+    elif not seen_fail:
+        chk.undecided(rid, f.name, sig, f.entry.term.locstr(), "no evaluated path asks for a growth that then fails")
+    else:
+        chk.proven(rid, f.name, sig, f.entry.term.locstr(), "failure reported with the table untouched")
 
 
 def r3_agree(chk, prog, m):
